@@ -290,6 +290,11 @@ func c04TSel(op []string, never chan struct{}, in *c04Insts) string {
 }
 
 func c04SelIc(op []string, never chan struct{}, ic grpc.UnaryServerInterceptor, method string) string {
+	return c04SelIcMid(op, never, ic, method, nil)
+}
+
+// c04SelIcMid: like c04SelIc; `mid` runs once the call is in flight (its worker is at the gate), before anything ends it.
+func c04SelIcMid(op []string, never chan struct{}, ic grpc.UnaryServerInterceptor, method string, mid func()) string {
 	wrapper, kind, at, work := op[1], op[2], op[3], c04ParseWork(op[4])
 	nopts, fireIdx := 1, 0
 	if wrapper == "fx" && len(op) >= 7 {
@@ -304,6 +309,9 @@ func c04SelIc(op []string, never chan struct{}, ic grpc.UnaryServerInterceptor, 
 		timeout = 3 * time.Millisecond
 	}
 	out, gate := c04CallIc(wrapper, timeout, parents, work, true, never, ic, method)
+	if mid != nil {
+		mid()
+	}
 	fire := func() {
 		if fireIdx < len(parents) {
 			parents[fireIdx].fire(kind)
@@ -388,6 +396,51 @@ func c04Fxt(op []string, never chan struct{}) string {
 	}
 	o2, _ := c04Wait(out, c04StuckBound(), "stuck")
 	return "out=" + o + " then=" + o2
+}
+
+// pairsel <kindA> <workA> <kindB> <atB> <workB>: TWO calls through ONE UnaryTimeoutInterceptor.  A's context ends while
+// its work is blocked (A returns the timeout result, its worker goroutine lives on); B is started; A's work then ends
+// LATE (result or panic) while B is in flight; then B is ended as in `sel srv`.  Whatever the interceptor keeps between
+// calls (channels, result variables, locks allocated once per interceptor) shows up as A's late outcome in B's.
+//   => aout=<…> afin=<0|1> out=<…> [then=<…>]
+func c04PairSel(op []string, never chan struct{}) string {
+	kindA, workA := op[1], c04ParseWork(op[2])
+	ic := UnaryTimeoutInterceptor(time.Hour)
+	parentA := newC04Ctx()
+	gateA := make(chan struct{})
+	finA := make(chan struct{})
+	outA := make(chan string, 1)
+	go func() {
+		defer func() {
+			if p := recover(); p != nil {
+				outA <- c04PanicTok(p)
+			}
+		}()
+		resp, err := ic(parentA, "req", &grpc.UnaryServerInfo{FullMethod: "/svc/M1"}, func(ctx context.Context, req any) (any, error) {
+			defer close(finA)
+			<-gateA
+			return workA.run()
+		})
+		outA <- c04Out("srv", resp, err)
+	}()
+	parentA.fire(kindA)
+	aout, _ := c04Wait(outA, c04StuckBound(), "stuck")
+	afin := 0
+	mid := func() {
+		close(gateA)
+		select {
+		case <-finA:
+			afin = 1
+		case <-time.After(c04StuckBound()):
+		}
+		// the late worker's deferred recover / unlock run after the handler returned: give them a moment
+		for i := 0; i < 50; i++ {
+			runtime.Gosched()
+		}
+		time.Sleep(2 * time.Millisecond)
+	}
+	b := c04SelIcMid([]string{"sel", "srv", op[3], op[4], op[5]}, never, ic, "/svc/M2", mid)
+	return fmt.Sprintf("aout=%s afin=%d %s", aout, afin, b)
 }
 
 func c04SelRace(op []string, never chan struct{}) string {
@@ -689,6 +742,22 @@ func c04Gen(r *verifh.Rng) []verifh.Section {
 		}
 	}
 	secs = append(secs, verifh.Section{Cfg: "wrapper=sel mode=fxdeadline", Ops: fops})
+	// two calls through one interceptor: A times out, its late outcome arrives while B is in flight
+	var pops []string
+	np := verifh.Scale(40, 200)
+	for i := 0; i < np; i++ {
+		workA := fmt.Sprintf("ret:%d:%d", r.Range(4, 7), r.Pick(0, 3))
+		if r.Bool() {
+			workA = fmt.Sprintf("panic:%d", r.Range(11, 19))
+		}
+		kindB := r.PickS("none", "deadline", "cancel")
+		workB := c04GenWork(r)
+		if kindB == "none" && workB == "never" {
+			workB = "ret:1:0"
+		}
+		pops = append(pops, fmt.Sprintf("pairsel %s %s %s %s %s", r.PickS("deadline", "cancel"), workA, kindB, r.PickS("before", "after", "after"), workB))
+	}
+	secs = append(secs, verifh.Section{Cfg: "wrapper=sel mode=pair", Ops: pops})
 	return secs
 }
 
@@ -710,6 +779,8 @@ func TestVerifC04Sel(t *testing.T) {
 				return c04TSel(op, never, in)
 			case "fxt":
 				return c04Fxt(op, never)
+			case "pairsel":
+				return c04PairSel(op, never)
 			}
 			return "bad-op"
 		}
